@@ -59,6 +59,7 @@ class Activity:
         self.result = None
         self.polls = 0
         self.ops = 0
+        self.done_waiters = []     # activities waiting for this one to end (e.g. mpsc::Sender::closed on an actor's mailbox)
 
 
 def touch(path, *what):
@@ -272,6 +273,7 @@ def _independent(label, fp):
 
 
 POR = os.environ.get('VERIF_NO_POR', '') == ''
+fp_touch_done = True
 
 
 def run_activities(path, acts, max_steps=400):
@@ -311,6 +313,20 @@ def run_activities(path, acts, max_steps=400):
         except StopIteration as e:
             a.state = 'done'
             a.result = e.value
+            for w in a.done_waiters:
+                w.woken = True
+                if w.state == 'parked':
+                    w.state = 'ready'
+            # a finished task drops what it owned: replies it never sent fail their receivers
+            if a in getattr(path, 'responder_owners', []):
+                for cid, ws in list(getattr(path, 'oneshot_waiters', {}).items()):
+                    if cid not in getattr(path, 'sent', {}):
+                        for w in ws:
+                            w.woken = True
+                            if w.state == 'parked':
+                                w.state = 'ready'
+            if fp_touch_done:
+                path.fp.add(('task-end', a.name))
         fp = path.fp
         path.fp = None
         if POR:
